@@ -2333,13 +2333,13 @@ impl<'r> EvalGen<'r> {
     fn konst(&mut self) -> Sx {
         match self.rng.below(10) {
             0..=4 => cint(self.rng.range(0, 5)),
-            5..=7 => sstr(self.rng.pick(&EV_STRS)),
+            5..=7 => sstr(*self.rng.pick(&EV_STRS)),
             8 => Sx::Const(Const::Bool(self.rng.chance(1, 2))),
             _ => Sx::Const(Const::Null),
         }
     }
     fn a_var(&mut self) -> Sx {
-        var(self.rng.pick(&self.vars))
+        var(*self.rng.pick(&self.vars))
     }
     fn atom(&mut self) -> Sx {
         if self.rng.chance(3, 5) { self.a_var() } else { self.konst() }
@@ -2348,7 +2348,7 @@ impl<'r> EvalGen<'r> {
         match self.rng.below(8) {
             0..=2 => cint(self.rng.range(0, 3)),
             3 => un(Unop::Minus, cint(self.rng.range(1, 3))),
-            4..=5 => sstr(self.rng.pick(&EV_ATTRS)),
+            4..=5 => sstr(*self.rng.pick(&EV_ATTRS)),
             _ => self.expr(n.max(1)),
         }
     }
@@ -2358,7 +2358,7 @@ impl<'r> EvalGen<'r> {
         while left > 0 {
             let opt = self.rng.chance(1, 3);
             if self.rng.chance(3, 5) {
-                e = attr(e, self.rng.pick(&EV_ATTRS), opt);
+                e = attr(e, *self.rng.pick(&EV_ATTRS), opt);
                 left -= 1;
             } else {
                 let take = 1 + self.rng.below(left.min(3));
